@@ -9,6 +9,9 @@
 (*            has next (else alarm Conformance/order); ApplyStep gives the *)
 (*            spec's persistent state after it; the state after every step *)
 (*            is remembered (hist)                                         *)
+(*   Commit   a write transaction of dkg.db / the chain db was committed     *)
+(*            (observed at bbolt's page writer): a step must be exactly the *)
+(*            number of transactions Commits(op) says (Conformance/commits) *)
 (*   Restart  Crash after step j + Restart: a fresh daemon was started on  *)
 (*            the copy of the directories taken after step j.  The         *)
 (*            persistent state read from the copy must be the spec's       *)
@@ -24,9 +27,11 @@ TraceScripts == {}
 VARIABLES l,        \* next line of the trace
           alarms,   \* monitor failures observed so far
           scen,     \* current scenario
-          hist      \* hist[j + 1] = [disk, served, pc] after j observed steps
+          hist,     \* hist[j + 1] = [disk, served, pc] after j observed steps
+          ncommit,  \* <<dkg.db, chain db>> write transactions committed since the last step
+          watching  \* the databases whose commits the harness observes by now
 
-tvars == <<script, steps, pc, disk, served, mode, rec, l, alarms, scen, hist>>
+tvars == <<script, steps, pc, disk, served, mode, rec, l, alarms, scen, hist, ncommit, watching>>
 
 Range(s) == {s[k] : k \in DOMAIN s}
 
@@ -39,6 +44,7 @@ Snap(d, sv, p, pk) == [disk |-> d, served |-> sv, pc |-> p, pk |-> pk]
 
 TraceInit == /\ script = << >> /\ steps = << >> /\ pc = 1 /\ disk = EmptyDisk /\ served = {}
              /\ mode = "run" /\ rec = NoRec
+             /\ ncommit = <<0, 0>> /\ watching = {}
              /\ l = 1 /\ alarms = {} /\ scen = "none" /\ hist = << Snap(EmptyDisk, {}, 1, <<Absent, Absent>>) >>
 
 StepReset(e) ==
@@ -46,7 +52,7 @@ StepReset(e) ==
   /\ script' = e.script
   /\ steps' = Expand(e.script)
   /\ pc' = 1 /\ disk' = EmptyDisk /\ served' = {} /\ mode' = "run" /\ rec' = NoRec
-  /\ scen' = e.scenario
+  /\ scen' = e.scenario /\ ncommit' = <<0, 0>> /\ watching' = {}
   /\ hist' = << Snap(EmptyDisk, {}, 1, <<Absent, Absent>>) >>
   /\ alarms' = alarms
 
@@ -70,17 +76,22 @@ StepStep(e) ==
                  ELSE {}
          A2 == IF e.j # Len(hist)
                  THEN {Alarm("Conformance", e, "step counter", "-", "-", "-", "-")} ELSE {}
-     IN /\ pc' = npc /\ disk' = d2 /\ served' = sv2
+         want == Commits(e.op)
+         A3 == IF ("dkg" \in watching /\ ncommit[1] # want[1]) \/ ("chain" \in watching /\ ncommit[2] # want[2])
+                 THEN {Alarm("Conformance", e, "commits: the step is not the number of bolt write transactions the specification says",
+                             Cause(steps, pc - 1), "-", "-", "-")}
+                 ELSE {}
+     IN /\ pc' = npc /\ disk' = d2 /\ served' = sv2 /\ ncommit' = <<0, 0>>
         /\ hist' = Append(hist, Snap(d2, sv2, npc,
                                      IF IsKeyStart(AsStep(e)) THEN <<disk.group, disk.share>> ELSE hist[Len(hist)].pk))
-        /\ alarms' = alarms \cup A1 \cup A2
-  /\ UNCHANGED <<script, steps, mode, rec, scen>>
+        /\ alarms' = alarms \cup A1 \cup A2 \cup A3
+  /\ UNCHANGED <<script, steps, mode, rec, scen, watching>>
 
 \* observed persistent state -> spec state
 ObsDisk(o) == [chain |-> Range(o.chain), cur |-> o.cur, fin |-> o.fin, group |-> o.group, share |-> o.share]
 ObsRec(r) == [groupEpoch |-> r.groupEpoch, shareEpoch |-> r.shareEpoch, finishedEpoch |-> r.finishedEpoch,
               finWhole |-> r.finWhole, chainRounds |-> Range(r.chainRounds), chainVerifies |-> r.chainVerifies,
-              outcome |-> r.outcome]
+              cur |-> r.cur, outcome |-> r.outcome]
 
 StepRestart(e) ==
   /\ e.ev = "Restart"
@@ -93,7 +104,11 @@ StepRestart(e) ==
          g == Cls(or.groupEpoch, or.finishedEpoch, pre.pk[1])
          s == Cls(or.shareEpoch, or.finishedEpoch, pre.pk[2])
          A0 == IF ~known THEN {Alarm("Conformance", e, "restart of an unknown crash point", "-", "-", "-", "-")} ELSE {}
-         A1 == IF od # pre.disk
+         \* e.c > 0: the copy was taken after the c-th commit INSIDE the step that follows step j,
+         \* a state the specification does not have (its steps are single transactions)
+         A1 == IF e.c > 0
+                 THEN {Alarm("Conformance", e, "commits: crash point inside a step (a step of the specification was more than one bolt transaction)", cause, g, s, or.outcome)}
+                 ELSE IF od # pre.disk
                  THEN {Alarm("Conformance", e, "disk: the persistent state read from the copy differs from the specification's", cause, g, s, or.outcome)}
                  ELSE {}
          A2 == IF or # expect
@@ -105,15 +120,28 @@ StepRestart(e) ==
          M2 == IF ~Mon_FinishedWhole(or)
                  THEN {Alarm("FinishedWhole", e, "completed DKG record is not one whole epoch", cause, g, s, or.outcome)}
                  ELSE {}
+         M5 == IF ~Mon_DkgDbConsistent(or)
+                 THEN {Alarm("DkgDbConsistent", e, "the DKG database is not usable for the next proposal: its current record is behind / not the completed record of the same epoch", cause, g, s, or.outcome)}
+                 ELSE {}
          M3 == IF ~Mon_KeyEpoch(or)
                  THEN {Alarm("KeyEpoch", e, "group file and share are not both of the epoch the database records as completed", cause, g, s, or.outcome)}
                  ELSE {}
          M4 == IF ~Mon_Resumes(or)
                  THEN {Alarm("Resumes", e, "the restarted node does not resume", cause, g, s, or.outcome)}
                  ELSE {}
-     IN /\ alarms' = alarms \cup A0 \cup A1 \cup A2 \cup M1 \cup M2 \cup M3 \cup M4
+     IN /\ alarms' = alarms \cup A0 \cup A1 \cup A2 \cup M1 \cup M2 \cup M3 \cup M4 \cup M5
         /\ rec' = or
-  /\ UNCHANGED <<script, steps, pc, disk, served, mode, scen, hist>>
+  /\ UNCHANGED <<script, steps, pc, disk, served, mode, scen, hist, ncommit, watching>>
+
+StepCommit(e) ==
+  /\ e.ev = "Commit"
+  /\ ncommit' = IF e.db = "dkg" THEN <<ncommit[1] + 1, ncommit[2]>> ELSE <<ncommit[1], ncommit[2] + 1>>
+  /\ UNCHANGED <<script, steps, pc, disk, served, mode, rec, scen, hist, alarms, watching>>
+
+StepWatch(e) ==
+  /\ e.ev = "Watch"
+  /\ watching' = watching \cup {e.db}
+  /\ UNCHANGED <<script, steps, pc, disk, served, mode, rec, scen, hist, alarms, ncommit>>
 
 StepOther(e) ==
   /\ e.ev \in {"Note", "RunEnd"}
@@ -122,11 +150,11 @@ StepOther(e) ==
           THEN {Alarm("Conformance", e, "order: the run ended without performing every persistence step of the script",
                       Cause(steps, pc - 1), "-", "-", "-")}
           ELSE {})
-  /\ UNCHANGED <<script, steps, pc, disk, served, mode, rec, scen, hist>>
+  /\ UNCHANGED <<script, steps, pc, disk, served, mode, rec, scen, hist, ncommit, watching>>
 
 TraceNext ==
   /\ l <= Len(TraceLog)
-  /\ LET e == TraceLog[l] IN StepReset(e) \/ StepStep(e) \/ StepRestart(e) \/ StepOther(e)
+  /\ LET e == TraceLog[l] IN StepReset(e) \/ StepStep(e) \/ StepRestart(e) \/ StepCommit(e) \/ StepWatch(e) \/ StepOther(e)
   /\ l' = l + 1
 
 TraceSpec == TraceInit /\ [][TraceNext]_tvars
